@@ -198,9 +198,15 @@ def check_state(sysm, p, path, res, viol):
                 viol("enabled-flag", "other-device", "after %r: DEV%d/%s became disabled" % (path, di, vn), {"p": p, "path": path, "req": None})
     for device in names + [None, "NOPE"]:
         for name in [None] + vnames + ["NOPE"]:
-            msgs = sysm.request(device, name)
-            res["transitions"] += 1
             rep = {"p": p, "path": path, "req": [device, name]}
+            try:
+                msgs = sysm.request(device, name)
+            except Exception as e:  # noqa
+                from mc import lib
+
+                viol("request-raises", "req=%s,%s" % (reqclass(device, name), lib.exc_site(e)), "request (%r,%r): %r" % (device, name, e), rep)
+                continue
+            res["transitions"] += 1
             reparse_check(msgs, viol, rep)
             want = []
             for dn, t in zip(names, truths):
